@@ -261,11 +261,13 @@ func (s *AbsfsNFS) SetAttr(node *NFSNode, attrs *NFSAttrs) error {
 		return fmt.Errorf("nil attrs")
 	}
 
-	// Check if file exists first
-	_, err := s.fs.Stat(node.path)
+	// Check if file exists first. Lstat: the handle of a symlink names the link,
+	// and nothing below may reach through it to the link's target.
+	info, err := s.fs.Lstat(node.path)
 	if err != nil {
 		return fmt.Errorf("setattr: %w", err)
 	}
+	isSymlink := info.Mode()&os.ModeSymlink != 0
 
 	// Read current attrs with lock protection to compare
 	node.mu.RLock()
@@ -276,19 +278,25 @@ func (s *AbsfsNFS) SetAttr(node *NFSNode, attrs *NFSAttrs) error {
 	currentAtime := node.attrs.Atime()
 	node.mu.RUnlock()
 
-	if attrs.Mode&os.ModePerm != currentMode&os.ModePerm {
+	// Chmod and Chtimes follow symbolic links, so they are skipped for a link
+	// (whose own mode and times mean nothing); its owner is set with Lchown.
+	if !isSymlink && attrs.Mode&os.ModePerm != currentMode&os.ModePerm {
 		if err := s.fs.Chmod(node.path, attrs.Mode&os.ModePerm); err != nil {
 			return fmt.Errorf("setattr: chmod failed: %w", err)
 		}
 	}
 
 	if attrs.Uid != currentUid || attrs.Gid != currentGid {
-		if err := s.fs.Chown(node.path, int(attrs.Uid), int(attrs.Gid)); err != nil {
+		chown := s.fs.Chown
+		if isSymlink {
+			chown = s.fs.Lchown
+		}
+		if err := chown(node.path, int(attrs.Uid), int(attrs.Gid)); err != nil {
 			return fmt.Errorf("setattr: chown failed: %w", err)
 		}
 	}
 
-	if (!attrs.Atime().IsZero() || !attrs.Mtime().IsZero()) &&
+	if !isSymlink && (!attrs.Atime().IsZero() || !attrs.Mtime().IsZero()) &&
 		(attrs.Mtime() != currentMtime || attrs.Atime() != currentAtime) {
 		if err := s.fs.Chtimes(node.path, attrs.Atime(), attrs.Mtime()); err != nil {
 			return fmt.Errorf("setattr: chtimes failed: %w", err)
